@@ -98,6 +98,32 @@ def run(ctx, prop):
                  {"k": "interface", "name": "IOther", "base": "IShape", "members": [
                      {"k": "method", "name": "area", "optional": False, "doc": None, "params": [{"dir": "out", "type": "uint64", "arr": None, "name": "a"}]}]}]
         work.append(("gen", {"id": f"C11-named-{fname}", "files": [{"path": fname, "nodes": nodes}], "main": fname, "incdirs": [], "no_java": True}))
+    # array members longer than 32 elements (beyond what derive-style helpers of the target
+    # languages cover), alone, nested and as parameters
+    _f = lambda t, c, n: {"type": t, "count": c, "name": n}
+    _pp = lambda d, t, n, a=None: {"dir": d, "type": t, "arr": a, "name": n}
+    work.append(("gen", {"id": "C11-wide-arrays", "main": "main.idl", "incdirs": [], "files": [{"path": "main.idl", "nodes": [
+        {"k": "struct", "name": "WrappedKey", "fields": [_f("uint32", 1, "version"), _f("uint32", 1, "length"), _f("uint8", 40, "blob")]},
+        {"k": "struct", "name": "Cells", "fields": [_f("uint32", 33, "cells"), _f("uint16", 70, "s")]},
+        {"k": "struct", "name": "Ring", "fields": [_f("WrappedKey", 64, "keys"), _f("uint64", 1, "head")]},
+        {"k": "interface", "name": "IKeyStore", "base": None, "members": [
+            {"k": "method", "name": "store", "optional": False, "doc": None, "params": [_pp("in", "WrappedKey", "k"), _pp("out", "uint32", "slot")]},
+            {"k": "method", "name": "load", "optional": False, "doc": None, "params": [_pp("in", "uint32", "slot"), _pp("out", "WrappedKey", "k")]},
+            {"k": "method", "name": "cells", "optional": False, "doc": None, "params": [_pp("in", "Cells", "c"), _pp("out", "Ring", "r")]},
+            {"k": "method", "name": "many", "optional": False, "doc": None, "params": [_pp("in", "WrappedKey", "ks", "unbounded"), _pp("out", "Cells", "cs", "unbounded")]}]}]}]}))
+    # an include written with a directory part: the generated headers mirror the tree, stub and
+    # skeleton headers of the including file must name the included headers the same way
+    work.append(("gen", {"id": "C11-subdir-include", "main": "IService.idl", "incdirs": [], "no_java": True, "files": [
+        {"path": "IService.idl", "nodes": [
+            {"k": "include", "path": "common/ITypes.idl"},
+            {"k": "interface", "name": "IService", "base": "ITypesBase", "members": [
+                {"k": "method", "name": "query", "optional": False, "doc": None, "params": [_pp("in", "TKey", "k"), _pp("out", "TVal", "v")]}]}]},
+        {"path": "common/ITypes.idl", "nodes": [
+            {"k": "struct", "name": "TKey", "fields": [_f("uint32", 2, "id")]},
+            {"k": "struct", "name": "TVal", "fields": [_f("uint64", 3, "v")]},
+            {"k": "interface", "name": "ITypesBase", "base": None, "members": [
+                {"k": "error", "name": "T_FAIL"},
+                {"k": "method", "name": "version", "optional": False, "doc": None, "params": [_pp("out", "uint32", "v")]}]}]}]}))
     def no_int64_min(case):
         """the most negative int64 literal does not compile warning-clean in C/C++ (known finding
         K11-int64MinConst, re-confirmed by its witness on every run): generated cases use the
